@@ -61,6 +61,10 @@ def judge(o, go, m):
     feats = set(go.get("features") or [])
     if feats & OUTSIDE:
         return "skip", "outside the domain: %s" % sorted(feats & OUTSIDE)
+    if go.get("outcome") == "timeout":
+        # one infer-decodes operation is hundreds of Validate + Decode calls (every mutation of several encodings): the harness deadline
+        # on a loaded machine says nothing about C09 (a ForType that does not return is C10's / C16's business, observed on small operations)
+        return "skip", "deadline reached while checking the mutations"
     k = c04.known_class(o, go)
     if go.get("outcome") != "ok":
         return ("known:" + k, "") if k else ("violation", "ForType fails: %r" % (go,))
